@@ -17,6 +17,10 @@ MIRI = {
 TSAN = {
     "c10": {"params": {"cases": 1200}, "timeout_s": 2400},
     "c06": {"params": {"cases": 400}, "timeout_s": 2400},
+    # random store sequences with the concurrent-reader phases (four threads on the &self operations)
+    "c09": {"params": {"cases": 160}, "timeout_s": 2400},
+    # all four tracker kinds, shard counts 2..8, pipelined batch submission with consumer threads
+    "c05": {"params": {"cases": 16}, "timeout_s": 2400},
 }
 
 
